@@ -71,6 +71,7 @@ struct Sched::Fiber
     std::vector<int> waiting_on;
     void *wait_mutex = nullptr;
     std::exception_ptr error;
+    bool soft_error = false; // InjectedAbort: delivered to the joiner, does not abort the run
     void *tsan = nullptr;
     void *asan_fake = nullptr;
     std::string name;
@@ -219,6 +220,11 @@ void Sched::trampoline(unsigned lo, unsigned hi)
     {
         f->fn();
     }
+    catch (const InjectedAbort &)
+    {
+        f->error = std::current_exception();
+        f->soft_error = true;
+    }
     catch (...)
     {
         f->error = std::current_exception();
@@ -335,7 +341,7 @@ void Sched::fiber_exit()
             if (fibers_[id]->st != Fiber::DONE) all = false;
         if (all) f->st = Fiber::RUNNABLE;
     }
-    if (me->error && !abort_error_)
+    if (me->error && !me->soft_error && !abort_error_)
     {
         // first failure aborts the run: go straight back to the main context
         abort_error_ = me->error;
